@@ -57,6 +57,14 @@ def run(tier, seed, scale=1.0):
     r4.counters = {"sockets_" + k: v for k, v in r4.counters.items() if k in ("cases", "requests", "transmissions", "note.sockets_many_at_once")}
     r4.fps = set()
     res.merge(r4)
+    # enumeration: requests waiting on a failed and on a healthy server, a compound request (each entry point) joining
+    # them, every send from the k-th on failing (k = 1..14): retries, failover and probes fail inside the call that
+    # started them, which may complete the request being started
+    n_sc = int((14 * 24 * (4 if tier == "quick" else 200)) * scale)
+    r5 = vdriver.explore(common.spec("simnet", "sendcut", seed), n_sc, chunk=max(56, n_sc // 64), chunk_timeout=600)
+    r5.counters = {"sendcut_" + k: v for k, v in r5.counters.items() if k in ("cases", "requests", "transmissions", "sendcut_fired")}
+    r5.fps = set()
+    res.merge(r5)
     return common.finish(PROP, tier, seed, "exploration", res, own, RULE, t0,
                          min_conclusive=int(5000 * scale),
                          assumptions=["virtual socket layer and servers model a UDP/TCP network faithfully enough",
